@@ -197,7 +197,9 @@ Proof.
 Qed.
 
 (* the value printed is within half a unit of the last printed digit *)
-Lemma fix_abs_err N q : Qabs (val_fix N (fmt_fixQ N q) - q) <= (1 # 2) / inject_Z (p10 N).
+Lemma fix_abs_err_eq N q :
+  Qabs (val_fix N (fmt_fixQ N q) - q) ==
+  Qabs (inject_Z (fixn N q) - Qabs q * inject_Z (p10 N)) / inject_Z (p10 N).
 Proof.
   pose proof (p10Q_pos N) as Hp. rewrite val_fmt_fixQ. pose proof (Qsg_abs q) as Eq.
   set (p := inject_Z (p10 N)) in *. set (v := inject_Z (fixn N q)).
@@ -207,7 +209,24 @@ Proof.
   unfold s, a.
   rewrite Qabs_sg_mul. unfold Qdiv. rewrite Qabs_Qmult.
   rewrite (Qabs_pos (/ p)) by (apply Qlt_le_weak, Qinv_lt_0_compat; exact Hp).
+  reflexivity.
+Qed.
+
+Lemma fix_abs_err N q : Qabs (val_fix N (fmt_fixQ N q) - q) <= (1 # 2) / inject_Z (p10 N).
+Proof.
+  pose proof (p10Q_pos N) as Hp. rewrite fix_abs_err_eq. unfold Qdiv.
   apply Qmult_le_compat_r; [apply rneQ_abs_err | apply Qlt_le_weak, Qinv_lt_0_compat; exact Hp].
+Qed.
+
+(* the error is half a unit of the last digit only at a tie, and then the last digit is even *)
+Lemma fix_tie_even N q :
+  Qabs (val_fix N (fmt_fixQ N q) - q) == (1 # 2) / inject_Z (p10 N) -> Z.even (fixn N q) = true.
+Proof.
+  intros H. pose proof (p10Q_pos N) as Hp. rewrite fix_abs_err_eq in H.
+  unfold fixn. apply rneQ_half_even. fold (fixn N q).
+  set (t := Qabs (inject_Z (fixn N q) - Qabs q * inject_Z (p10 N))) in *.
+  assert (E : t == t / inject_Z (p10 N) * inject_Z (p10 N)) by (field; lra).
+  rewrite E, H. field. lra.
 Qed.
 
 (* printing the value of a printed number prints the same number *)
